@@ -29,7 +29,7 @@ git -C "$wt" apply "$d/patch.diff" || { echo "PATCH DOES NOT APPLY"; fin; exit 3
 (cd "$wt" && go build ./... ) || { echo "DOES NOT BUILD"; fin; exit 3; }
 (cd "$wt" && timeout 900 sh -c "$run" >/tmp/conf.$$.b 2>&1); b=$?
 rm -f "$wt/$dst"
-(cd "$wt" && timeout 1500 go test -count=1 -timeout 20m $pk >/tmp/conf.$$.c 2>&1); c=$?
+(cd "$wt" && timeout 1500 go test -count=1 -timeout 20m $CONFIRM_TEST_FLAGS $pk >/tmp/conf.$$.c 2>&1); c=$?
 echo "demo without patch: exit=$a ; demo with patch: exit=$b ; existing tests of $pk with patch: exit=$c"
 [ $a = 0 ] || tail -5 /tmp/conf.$$.a
 [ $b != 0 ] || tail -5 /tmp/conf.$$.b
